@@ -31,7 +31,7 @@ CLAIMS = {
          "Soundness of the AC-canonicaliser used by the tie is not proved; pointer identity is modelled by structural equality; optimize idempotence is observed, not proved.",
          "Lean 4 proof (rewrite and optimiser soundness over an arbitrary field) + program-level correspondence up to AC-canonical form"),
  "C08": ("Theorems: opcodes_pinned / enum_is_table / numbering_injective / codes_below_reserved / args_pinned ... by `decide` over the table regenerated from opcode.hpp/.cpp; string_roundtrip, word_roundtrip, tree_roundtrip, archive_roundtrip_partial, roundtrip_same_denotation by induction over a byte-level model of serializer/deserializer; the failing case (named variable) is proved to fail with a concrete witness. Tie: real serialize bytes = model bytes, real deserialize = model deserialize, malformed streams rejected alike. Oracle: round trip through the real code compared bit-exactly at sample points, names, docs, bindings.",
-         "Load-time constant folding is an uninterpreted parameter; remap/apply trees are correspondence-only.",
+         "Load-time rewriting by Tree::unary / Tree::binary is now inside the theorems (C08Fold: archive_roundtrip_fold_denote — same function after reload whatever was rewritten, under RewriteLaws, which are field laws: exact arithmetic with an exact folder; binary32 violates the zero laws, named in the doc comment); remap/apply trees are correspondence-only.",
          "Lean 4 proof (byte-level round trip by induction; table pinned by decide over regenerated data) + byte-exact correspondence"),
  "C09": ("Theorems: split_partitions, split_enumerates, voxels_cover_partial, recurse_eq_bruteforce, render_eq_bruteforce, render_workers_independent, regions_partition for every classifier, every sound interval oracle, every view and worker count. Tie: the model's render, fed the real per-voxel signs and the real interval answers, must equal the real depth image pixel for pixel; splits and regions compared exactly. Oracle: Heightmap::render == brute-force column scan for workers 1..16.",
          "Real threads are not modelled (independence from recurse_local + observation); float voxel positions are observed.",
@@ -58,7 +58,7 @@ CLAIMS = {
          "Eigen's eigen-solver is abstract; float rounding is tolerance-checked only.",
          "Lean 4 proof (selection logic for arbitrary solver; QEF algebra over a field) + candidate replay"),
  "C20": ("Theorems: total_formula, ticks_eq_total (every octree shape, every interleaving), walk_ticks, reset_ticks (exact condition) and reset_ticks_defect (decide), progress_monotone, finish_idempotent. Tie: tick events and octree shape from hooks replayed; announced totals and handler counters compared. Oracle: reported values in [0,1], monotone, every phase complete; life-cycle scenarios under a watchdog.",
-         "Float32 rounding of the reported fraction checked on samples only.",
+         "Rounded fraction (C20Rounded): monotone for EVERY monotone idempotent rounding with rnd 0 = 0, in the C++ order of operations; <= 1 and exactly 1 on completion for unit weights (what every render uses); that IEEE binary32 round-to-nearest is such a rounding is a hypothesis. For weights >= 2 the bound is false (kernel-checked witness; the real handler reports 1.00000012 for start({3}), total 2^24+1 — outside renders).",
          "Lean 4 proof (structural induction over octree shapes; state machine of the handler) + tick-trace replay"),
  "C13": ("Theorems about the refcount machine (every operation = micro-steps of the C++: refcount++, explicit-stack destructor, node construction; tree-building calls with ANY admissible outcome): reachable_inv, rc_invariant (rc n = #handles + #parent edges), no_dangling, no_undefined_behaviour, api_preserves_args, leak_free, destructor_iterative / destructor_fuel_suffices (native stack O(1) in tree depth). Tie: after every operation of seeded random sequences over the Tree value type and the C API the live-node counter, every handle's target and refcount and every live node's refcount equal the model's prediction (hook events give allocations / deletions). Oracle: live nodes return to the baseline once every handle is deleted; 3e5..1e6-node chains / fans destroyed with a 256 kB native stack; ASan/LSan run of the same sequences.",
          "Allocator and C++ temporary lifetime rules not modelled; ASan/LSan is a validator (exploration); TreeOracle nodes are exercised in C16.",
